@@ -113,7 +113,6 @@ func runC06(ctx *Ctx, p *c06Prog) {
 	readerPanic := make([]string, nOut)
 	var group simrt.WaitGroup
 	waitReturned := false
-	liveAtWait := 0
 	feederDone := false
 	mainPanic := ""
 	res := ctx.Sim(nil, func() {
@@ -186,7 +185,7 @@ func runC06(ctx *Ctx, p *c06Prog) {
 		}
 		group.Wait()
 		waitReturned = true
-		liveAtWait = simrt.LiveAdopted()
+		simrt.Mark()
 	})
 	ctx.Res.NonTrivial = res.Switches >= 3
 	topo := p.Topology
@@ -228,8 +227,18 @@ func runC06(ctx *Ctx, p *c06Prog) {
 	if !waitReturned || !feederDone {
 		ctx.Violate("C06", "no-termination", topo+":wait", desc+": run ended but Wait()/feeder did not complete")
 	}
-	if liveAtWait > 0 {
-		ctx.Violate("C06", "wait-returned-early", topo, fmt.Sprintf("%s: the caller's Wait() returned while %d library helper goroutine(s) were still running: the wait group does not cover the helpers", desc, liveAtWait))
+	// When the caller's Wait() has returned the helpers' work must be over: a
+	// helper goroutine that INITIATES another operation afterwards (a queue call,
+	// an access) was not covered by the wait group.  A helper that is merely being
+	// resumed from an exchange its partner already completed does not count.
+	var late []string
+	for _, t := range res.Tasks {
+		if t.ActiveAfterMark && strings.HasPrefix(t.Name, "go#") {
+			late = append(late, t.Name)
+		}
+	}
+	if len(late) > 0 {
+		ctx.Violate("C06", "wait-returned-early", topo, fmt.Sprintf("%s: the caller's Wait() returned while library helper goroutine(s) %v went on working: the wait group does not cover the helpers", desc, late))
 	}
 	if group.Count() != 0 {
 		ctx.Violate("C06", "waitgroup-nonzero", topo, fmt.Sprintf("%s: wait group counter is %d after termination", desc, group.Count()))
